@@ -308,6 +308,13 @@ func c12Scan(args []string) error {
 					{"array-item", "@(array(1, " + ql + ")[1])", s}, {"object-property", `@(object("k", ` + ql + `).k)`, s},
 					{"branch", "@(if(1 = 1, " + ql + ", 0))", s}, {"nested-argument", "@(text(default(" + ql + ", 0)))", map[bool]string{true: "0", false: s}[s == ""]},
 				}
+				// the same string written with its line breaks and tabs RAW inside the quotes (only quote and backslash escaped)
+				// - for strings that need no escapes at all: with an escape next to a raw line break the literal is not a Go-quoted
+				// string any more and is taken as written, which is not the spelling the property promises
+				if !strings.ContainsAny(s, "\u0001\\\"") {
+					rawq := `"` + strings.NewReplacer("\\", "\\\\", "\"", "\\\"").Replace(s) + `"`
+					positions = append(positions, pos{"raw-spelling", "@(" + rawq + ")", s}, pos{"raw-spelling-argument", "@(text(" + rawq + "))", s})
+				}
 				if !strings.HasSuffix(s, `\`) {
 					positions = append(positions, pos{"left-of-&", "@(" + ql + ` & "")`, s}, pos{"both-sides-of-&", "@(" + ql + " & " + ql + ")", s + s},
 						pos{"compared", "@(if(" + ql + " = " + ql + ", " + ql + `, "ne"))`, s}, pos{"default", "@(default(" + ql + `, "d"))`, dflt})
